@@ -895,6 +895,7 @@ struct Value {
 
     void Merge(Value &&val) {
         if (isUndefined()) {
+            reset();
             setTypeToArray();
         }
 
@@ -918,6 +919,7 @@ struct Value {
 
     void Merge(const Value &val) {
         if (isUndefined()) {
+            reset();
             setTypeToArray();
         }
 
